@@ -310,6 +310,9 @@ Proof.
   intros r I i b v J. specialize (W r I). rewrite forallb_forall in W. exact (W _ J).
 Qed.
 
+Lemma xo_mem_map n l : xo_mem n (map (fun nv : rname * xval => (fst nv, XRef (snd nv))) l) = xo_mem n l.
+Proof. induction l as [|[n' v'] l IH]; simpl; auto. rewrite IH. reflexivity. Qed.
+
 Lemma finalise_all_ok imgs l :
   (forall r, In r l -> forall i b v, In (NI i b, v) (r_xo r) -> img_mem i b imgs = true) ->
   exists l', finalise_all imgs l = Some l' /\ length l' = length l /\
@@ -323,8 +326,8 @@ Proof.
     simpl. unfold finalise_res. rewrite F, E. eexists. split; [reflexivity|]. split; [simpl; lia|].
     intros [|rid] r0 E0; simpl in *.
     + inversion E0; subst. eexists. split; [reflexivity|]. intro n. destruct n; simpl; auto.
-      * induction (r_xo r0) as [|[n' v'] x IHx]; simpl; auto. rewrite IHx. reflexivity.
-      * induction (r_xo r0) as [|[n' v'] x IHx]; simpl; auto. rewrite IHx. reflexivity.
+      * apply xo_mem_map.
+      * apply xo_mem_map.
     + apply P. exact E0.
 Qed.
 
